@@ -9,46 +9,128 @@ import re
 from ..core import (AnalysisError, assigned_targets, body_nodes, call_name, dotted, is_self_attr,
                     key_text, names_in, params, parent, stmts_of, unparse)
 from ..linform import NotPoly, Poly, eval_poly
+from ..normal import _dc, inline_temps
+from ..pattern import find, guards_of, pmatch
 
 KRY = 'tenpy/linalg/krylov_based.py'
 SPARSE = 'tenpy/linalg/sparse.py'
 
 
-def _tokens(stmts):
-    """abstract a loop body to the sequence of vector effects on w"""
+class _Canon(ast.NodeTransformer):
+    """rename the work vector, the loop index and the recurrence coefficients to their roles"""
+
+    def __init__(self, names, subs):
+        self.names, self.subs = names, subs
+
+    def visit_Name(self, node):
+        return ast.copy_location(ast.Name(self.names.get(node.id, node.id), node.ctx), node)
+
+    def visit(self, node):
+        if isinstance(node, ast.expr) and not isinstance(node, ast.Name):
+            t = unparse(node)
+            if t in self.subs:
+                return ast.copy_location(ast.Name(self.subs[t], ast.Load()), node)
+        return super().visit(node)
+
+
+def _roles(nf, loop):
+    """(names, subs, problems): role names for the Krylov loop of the normal form `nf`"""
+    names, subs, problems = {}, {}, []
+    if not isinstance(loop.target, ast.Name):
+        return names, subs, ['loop target is not a name']
+    K = loop.target.id
+    names[K] = 'k'
+    W = None
+    for st in loop.body:
+        e = pmatch('$w = self.H.matvec($w)', st)
+        if e:
+            W = e['$w']
+    if W is None:
+        problems.append('no `w = self.H.matvec(w)` in the loop')
+    else:
+        names[W] = 'w'
+    # the tridiagonal matrix: alias of self._h_krylov (inlined by the normal form) or a local
+    HH = {'self._h_krylov'}
+    for st in ast.walk(nf):
+        if isinstance(st, ast.Assign) and unparse(st.value) == 'self._h_krylov' and \
+                isinstance(st.targets[0], ast.Name):
+            HH.add(st.targets[0].id)
+    diag = {'%s[%s, %s]' % (h, K, K) for h in HH}
+    off = {'%s[%s, %s + 1]' % (h, K, K) for h in HH} | {'%s[%s + 1, %s]' % (h, K, K) for h in HH}
+    for t in diag:
+        subs[t] = 'ALPHA'
+    for t in off:
+        subs[t] = 'BETA'
+    stored = {'ALPHA': [], 'BETA': []}
+    for st in ast.walk(loop):
+        if not isinstance(st, ast.Assign):
+            continue
+        tg = [unparse(t) for t in st.targets]
+        role = None
+        if any(t in diag for t in tg):
+            role = 'ALPHA'
+            stored['ALPHA'] += [t for t in tg if t in diag]
+        elif any(t in off for t in tg):
+            role = 'BETA'
+            stored['BETA'] += [t for t in tg if t in off]
+        if role and isinstance(st.value, ast.Name):
+            names[st.value.id] = role
+        elif role:
+            subs[unparse(st.value)] = role      # the stored expression itself (temp inlined)
+        # names READ from the matrix / naming a cached vector
+        v = unparse(st.value)
+        if len(st.targets) == 1 and isinstance(st.targets[0], ast.Name):
+            if re.fullmatch(r'self\._cache\[-\d+\]', v):
+                names[st.targets[0].id] = v
+            elif v in diag:
+                names[st.targets[0].id] = 'ALPHA'
+            elif v in off:
+                names[st.targets[0].id] = 'BETA'
+            elif any(v.startswith(h + '[') for h in HH):
+                names[st.targets[0].id] = 'H[?]'
+                problems.append('`%s` reads the coefficient from %s, which is neither the '
+                                'diagonal [k,k] nor the off-diagonal [k,k+1]' % (key_text(st), v))
+    return names, subs, problems, stored
+
+
+def _tokens(stmts, canon):
+    """abstract a loop body to the sequence of vector effects on the work vector w"""
     out = []
     for st in stmts:
         t = None
         if isinstance(st, ast.Expr) and isinstance(st.value, ast.Call):
             c = st.value
             d = dotted(c.func) or ''
-            a = [unparse(x) for x in c.args]
+            a = [unparse(canon.visit(_dc(x))) for x in c.args]
             if d == 'self.iscale_prefactor' and a and a[0] == 'w':
                 t = 'scale(w, %s)' % a[1]
             elif d == 'self._to_cache' and a == ['w']:
                 t = 'cache(w)'
             elif d == 'self.iadd_prefactor_other' and a and a[0] == 'w':
                 t = 'w += %s * %s' % (a[1], a[2])
-        elif isinstance(st, ast.Assign) and unparse(st.targets[0]) == 'w' and \
-                unparse(st.value) == 'self.H.matvec(w)':
+        elif isinstance(st, ast.Assign) and pmatch('$w = self.H.matvec($w)', st):
             t = 'w = H w'
         elif isinstance(st, ast.If):
             br = []
             cur = st
             while True:
-                br.append('%s: [%s]' % (unparse(cur.test), '; '.join(_tokens(cur.body))))
+                br.append('%s: [%s]' % (unparse(canon.visit(_dc(cur.test))),
+                                        '; '.join(_tokens(cur.body, canon))))
                 if len(cur.orelse) == 1 and isinstance(cur.orelse[0], ast.If):
                     cur = cur.orelse[0]
                 else:
                     if cur.orelse:
-                        br.append('else: [%s]' % '; '.join(_tokens(cur.orelse)))
+                        br.append('else: [%s]' % '; '.join(_tokens(cur.orelse, canon)))
                     break
             if any('w' in b.split(':', 1)[1] for b in br):
                 t = 'branch{' + ' | '.join(br) + '}'
         elif isinstance(st, ast.For):
-            inner = _tokens(st.body)
+            inner_names = dict(canon.names)
+            if isinstance(st.target, ast.Name):
+                inner_names[st.target.id] = 'c'
+            inner = _tokens(st.body, _Canon(inner_names, canon.subs))
             if inner:
-                t = 'for %s in %s: [%s]' % (unparse(st.target), unparse(st.iter), '; '.join(inner))
+                t = 'for c in %s: [%s]' % (unparse(canon.visit(_dc(st.iter))), '; '.join(inner))
         if t:
             out.append(t)
     return out
@@ -312,9 +394,26 @@ def check_recurrence(prog, rep):
         lr = [s for s in r.body if isinstance(s, ast.For)]
         if not lb or not lr:
             raise AnalysisError('%s: Krylov loops not found' % cname)
-        tb = _tokens(lb[0].body)
-        tr = _tokens(lr[0].body)
+        nb, nr = inline_temps(b), inline_temps(r)
+        lb = [s for s in nb.body if isinstance(s, ast.For)]
+        lr = [s for s in nr.body if isinstance(s, ast.For)]
+        names_b, subs_b, prob_b, stored_b = _roles(nb, lb[0])
+        names_r, subs_r, prob_r, stored_r = _roles(nr, lr[0])
+        tb = _tokens(lb[0].body, _Canon(names_b, subs_b))
+        tr = _tokens(lr[0].body, _Canon(names_r, subs_r))
         rep.instance('KRYLOV-recurrence', {'class': cname, 'build': tb, 'rebuild': tr})
+        # coefficients: the first pass stores alpha on the diagonal and beta on BOTH off-diagonal
+        # elements; the rebuild reads them back from there
+        rep.instance('KRYLOV-coefficients', {'class': cname, 'stored': stored_b,
+                                             'roles_build': names_b, 'roles_rebuild': names_r})
+        offs = {t.split('[', 1)[1] for t in stored_b['BETA']}
+        if prob_b or prob_r or not stored_b['ALPHA'] or len(offs) != 2 or \
+                'ALPHA' not in ' '.join(tr) or 'BETA' not in ' '.join(tr):
+            rep.violation('KRYLOV-coefficients', m, cname + '._rebuild_krylov_for_result_full',
+                          'coefficients',
+                          'the rebuild must use alpha = h[k,k] and beta = h[k,k+1] exactly where '
+                          'the first pass stored them (h symmetric tridiagonal)%s' %
+                          ('; ' + '; '.join(prob_b + prob_r) if prob_b or prob_r else ''), r.lineno)
         # equal up to rotation (the loops are cut at different points of the cycle)
         ok = len(tb) == len(tr) and any(tb[i:] + tb[:i] == tr for i in range(len(tb)))
         if not ok:
@@ -324,16 +423,6 @@ def check_recurrence(prog, rep):
                           'the rebuild loop %s is not the recurrence of the first pass %s (up to '
                           'where the cycle is cut): the result depends on N_cache' % (tr, tb),
                           lr[0].lineno)
-        # coefficients: rebuild reads alpha, beta where build stored them
-        srcb, srcr = unparse(b), unparse(r)
-        rep.instance('KRYLOV-coefficients', {'class': cname})
-        ok = 'h[k, k] = alpha' in srcb and 'alpha = h[k, k]' in srcr and \
-            'h[k, k + 1] = h[k + 1, k] = beta' in srcb and 'beta = h[k, k + 1]' in srcr
-        if not ok:
-            rep.violation('KRYLOV-coefficients', m, cname + '._rebuild_krylov_for_result_full',
-                          'coefficients',
-                          'the rebuild must use alpha = h[k,k] and beta = h[k,k+1] exactly where '
-                          'the first pass stored them (h symmetric tridiagonal)', r.lineno)
         check_pairing(m, rep, r)
     # ground state = lowest eigenvector of the tridiagonal matrix
     f = m.func('LanczosGroundState._calc_result_krylov')
@@ -343,12 +432,35 @@ def check_recurrence(prog, rep):
         rep.violation('KRYLOV-ritz', m, 'LanczosGroundState._calc_result_krylov', 'ritz-vector',
                       'the Ritz vector of the ground state is column 0 of eigh(h[:k+1,:k+1])',
                       f.lineno)
-    f = m.func('LanczosGroundState._build_krylov')
-    src = unparse(f)
+    b = m.func('LanczosGroundState._build_krylov')
+    nb = inline_temps(b)
+    lb = [s for s in nb.body if isinstance(s, ast.For)]
+    names_b, subs_b, _, _ = _roles(nb, lb[0])
     rep.instance('KRYLOV-ritz', {'check': 'alpha'})
-    if "npc.inner(w, self._cache[-1], axes='range', do_conj=True)" not in src:
+    K = lb[0].target.id
+    ok = False
+    for st in ast.walk(lb[0]):
+        if not isinstance(st, ast.Assign):
+            continue
+        if not any(pmatch('$h[%s, %s]' % (K, K), t) or
+                   pmatch('self._h_krylov[%s, %s]' % (K, K), t) for t in st.targets):
+            continue
+        val = st.value
+        if isinstance(val, ast.Name):
+            defs = [s2.value for s2 in ast.walk(lb[0]) if isinstance(s2, ast.Assign) and
+                    len(s2.targets) == 1 and unparse(s2.targets[0]) == val.id]
+            val = defs[0] if len(defs) == 1 else val
+        cn = _Canon({k: v for k, v in names_b.items() if v not in ('ALPHA', 'BETA')}, {})
+        val = cn.visit(_dc(val))
+        for c in ast.walk(val):
+            e = pmatch("npc.inner($$a, $$b, axes='range', do_conj=True)", c) or \
+                pmatch("npc.inner($$a, $$b, 'range', do_conj=True)", c) or \
+                pmatch("npc.inner($$a, $$b, 'range', True)", c)
+            if e and {unparse(e['$$a']), unparse(e['$$b'])} == {'w', 'self._cache[-1]'}:
+                ok = True
+    if not ok:
         rep.violation('KRYLOV-ritz', m, 'LanczosGroundState._build_krylov', 'alpha',
-                      'alpha_k = <v_k| H v_k> (with complex conjugation of the bra)', f.lineno)
+                      'alpha_k = <v_k| H v_k> (with complex conjugation of the bra)', b.lineno)
 
 
 def check_wrappers(prog, rep):
@@ -470,15 +582,55 @@ def check_eshift(prog, rep):
                           'Arnoldi has no rebuild pass: it must insist on N_cache >= N_max',
                           f.lineno)
     # gram_schmidt
-    f = m.func('gram_schmidt')
+    f = inline_temps(m.func('gram_schmidt'))
     rep.instance('KRYLOV-gram-schmidt', {})
-    src = unparse(f)
-    if "npc.inner(other, vec, 'range', do_conj=True)" not in src or \
-            'iadd_prefactor_other(vec, -ov, other)' not in src or \
-            'iscale_prefactor(vec, 1.0 / n)' not in src or 'if n > rcond' not in src:
+    why = _gram_schmidt_defect(f)
+    if why:
         rep.violation('KRYLOV-gram-schmidt', m, 'gram_schmidt', 'gram-schmidt',
                       'each vector is orthogonalised against all accepted ones, normalised and '
-                      'kept only if its norm exceeds rcond', f.lineno)
+                      'kept only if its norm exceeds rcond: ' + why, f.lineno)
+
+
+def _gram_schmidt_defect(f):
+    outer = [s for s in f.body if isinstance(s, ast.For) and isinstance(s.target, ast.Name)]
+    rets = [s for s in f.body if isinstance(s, ast.Return)]
+    if len(outer) != 1 or not rets or not isinstance(rets[-1].value, ast.Name):
+        return 'loop over the vectors / returned list not found'
+    acc = rets[-1].value.id
+    v = outer[0].target.id
+    if unparse(outer[0].iter) != params(f)[0]:
+        return 'the outer loop must run over all given vectors'
+    inner = [s for s in outer[0].body if isinstance(s, ast.For) and unparse(s.iter) == acc and
+             isinstance(s.target, ast.Name)]
+    if len(inner) != 1:
+        return 'no loop over the vectors accepted so far (`for .. in %s`)' % acc
+    o = inner[0].target.id
+    proj = False
+    for c in body_nodes(inner[0]):
+        for pat in ("iadd_prefactor_other(%s, -npc.inner(%s, %s, 'range', do_conj=True), %s)",
+                    "iadd_prefactor_other(%s, -npc.inner(%s, %s, axes='range', do_conj=True), %s)"):
+            if pmatch(pat % (v, o, v, o), c):
+                proj = True
+    if not proj:
+        return 'the projection  vec -= <other|vec> other  (bra conjugated) was not found'
+    norm_t = 'npc.norm(%s) > %s' % (v, params(f)[1])
+    scale = [c for c in body_nodes(outer[0]) if pmatch(
+        'iscale_prefactor(%s, 1.0 / npc.norm(%s))' % (v, v), c) or pmatch(
+        'iscale_prefactor(%s, 1 / npc.norm(%s))' % (v, v), c)]
+    app = [c for c in body_nodes(outer[0]) if pmatch('%s.append(%s)' % (acc, v), c)]
+    if len(scale) != 1 or len(app) != 1:
+        return 'normalisation / append of the new vector not found'
+    for c in scale + app:
+        st = c
+        while not isinstance(st, ast.stmt):
+            st = parent(st)
+        g = [(t, pol) for t, pol, _ in guards_of(f, st)]
+        if g != [(norm_t, True)]:
+            return '`%s` must happen exactly when the remaining norm exceeds rcond (guards: %s)' \
+                % (unparse(c), g)
+    if scale[0].lineno < inner[0].lineno or app[0].lineno < scale[0].lineno:
+        return 'order: project, then normalise, then accept'
+    return None
 
 
 def run(prog, rep, tier):
